@@ -11,7 +11,7 @@ from rv import oracles as O, gen
 
 LEVEL = "exploration"
 RULE = ("bounded-exhaustive: every sum vector of 1..5 bins over 0..G (G = 4 quick, 6 thorough; sharded) x {list, tuple, ndarray} x every permutation class (as given, sorted, reversed) x "
-        "5 sum-based objectives (k from 1 to bins+2) + weighted objective; random vectors up to 10^9 with up to 9 bins; the sorted fast path is compared on truly sorted input; "
+        "5 sum-based objectives (k from 1 to bins+2) + weighted objective; random vectors up to 2^49 with up to 9 bins, and lists/tuples of Python ints around 2^53..2^70 compared exactly; the sorted fast path is compared on truly sorted input; "
         "in situ: the value contract runs on every numeric evaluation made by dp / complete greedy on generated instances; non-trivial = >= 2 distinct sums given unsorted; "
         "distinct on (objective, k/weights, container type, vector, flag)")
 ASSUMPTIONS = ["weighted objective with the sorted flag may raise (documented refusal) or return the correct value", "ILP passes solver expressions to value_to_minimize: skipped by the in-situ contract (non-numeric)"]
@@ -51,7 +51,12 @@ def judge(case, ctx):
             return
         ctx.violation("exception", name, case, {"exc": repr(e)[:200]})
         return
-    ok = (F(float(got)) == F(want)) if name != "wmaxmin" else abs(float(got) - float(want)) <= 1e-9 * max(1.0, abs(float(want)))
+    if name == "wmaxmin":
+        ok = abs(float(got) - float(want)) <= 1e-9 * max(1.0, abs(float(want)))
+    elif isinstance(got, (int, np.integer)) and not isinstance(got, bool):
+        ok = int(got) == want                      # exact, also beyond 2^53
+    else:
+        ok = F(float(got)) == F(want)
     if not ok:
         ctx.violation("value_differs_from_documented_quantity", name, case, {"got": float(got), "want": float(want)})
         return
@@ -120,6 +125,13 @@ def run_shard(spec, rng, ctx):
         for case in cases_for(vec, rng):
             judge(case, ctx)
         ctx.counters["random_vectors"] += 1
+        # arbitrary-precision integer sums (lists / tuples of Python ints around and beyond 2^63): the documented quantity is still exact there
+        base = 2 ** rng.choice([53, 60, 62, 63, 64, 70])
+        vec = [base + rng.randint(-3, 50) if rng.random() < 0.8 else rng.randint(0, 1000) for _ in range(rng.randint(1, 6))]
+        for case in cases_for(vec, rng, kinds=("list", "tuple")):
+            if case["objective"] != "wmaxmin":
+                judge(case, ctx)
+        ctx.counters["bigint_vectors"] += 1
 
 
 def replay(case, ctx):
